@@ -13,6 +13,7 @@ import (
 	"path/filepath"
 	"sort"
 	"strings"
+	"time"
 
 	"verifharness/prng"
 	"verifharness/sx"
@@ -73,13 +74,29 @@ func safeExec(kind string, in sx.V) (out sx.V) {
 // Emit runs the case on the implementation and records it; class is the
 // coverage class of the case (input class; the outcome class is appended).
 func (c *Ctx) Emit(kind string, in sx.V, class string) sx.V {
-	out := safeExec(kind, in)
+	return c.emit(kind, in, class, false)
+}
+
+// EmitGuarded is Emit in a child process with a memory limit and a timeout.
+func (c *Ctx) EmitGuarded(kind string, in sx.V, class string) sx.V {
+	return c.emit(kind, in, class, true)
+}
+
+func (c *Ctx) emit(kind string, in sx.V, class string, guarded bool) sx.V {
+	var out sx.V
+	if guarded {
+		out = guardedExec(kind, in, 20*time.Second)
+	} else {
+		out = safeExec(kind, in)
+	}
 	ins := in.String()
 	outs := out.String()
 	fmt.Fprintf(c.cases, "%s %s\n", kind, ins)
 	fmt.Fprintf(c.impl, "%s\n", outs)
 	oc := "ok"
-	if strings.Contains(outs, "'panic") {
+	if strings.Contains(outs, "'crash") || strings.Contains(outs, "'timeout") {
+		oc = "crash"
+	} else if strings.Contains(outs, "'panic") {
 		oc = "panic"
 	} else if strings.Contains(outs, "'err") {
 		oc = "err"
@@ -130,6 +147,7 @@ func main() {
 			cases: bufio.NewWriterSize(cf, 1<<20), impl: bufio.NewWriterSize(inf, 1<<20),
 			classes: map[string]int{}, samples: map[string]string{}}
 		g(c)
+		stopGuard()
 		c.cases.Flush()
 		c.impl.Flush()
 		cf.Close()
@@ -150,6 +168,7 @@ func main() {
 		b, _ := json.MarshalIndent(meta, "", " ")
 		os.WriteFile(filepath.Join(*out, "meta.json"), b, 0o644)
 	case "exec":
+		applyRlimitFromEnv()
 		// stdin: lines "<kind> <sexpr>"; stdout: one result per line
 		rd := bufio.NewReaderSize(os.Stdin, 1<<20)
 		w := bufio.NewWriter(os.Stdout)
@@ -169,6 +188,7 @@ func main() {
 						fmt.Fprintln(w, safeExec(line[:i], v).String())
 					}
 				}
+				w.Flush()
 			}
 			if err != nil {
 				break
